@@ -83,7 +83,8 @@ impl Cfg {
             a.push(m.to_string());
         }
         if self.depth {
-            a.push("-depth".into());
+            // (-d is the other spelling of -depth: used whenever -sorted is not)
+            a.push(if self.sorted { "-depth" } else { "-d" }.into());
         }
         if self.sorted {
             a.push("-sorted".into());
